@@ -185,6 +185,7 @@ def u_resolve_reference(c):
     code = SymObj("code", Val.ref(z3.IntVal(c.new_id())))
     target = _fn_obj(c, "target")
     n_private = c.choose(3, "private-copies")
+    n_live = [1, 0, 2][c.choose(3, "live-functions-with-that-code")]
     privates = [_fn_obj(c, f"private{i}", extra={"__ptera_discard__": True}) for i in range(n_private)]
     other_kind = SymObj("conformer", Val.ref(z3.IntVal(c.new_id())), attrs={}, closed=True)  # not a function: has __conform__
     other_kind.attrs["__isinstance__"] = lambda it_, v, cls: cls is object
@@ -198,7 +199,8 @@ def u_resolve_reference(c):
 
     codefind = SymObj("codefind", Val.ref(z3.IntVal(-11)), attrs={
         "find_code": SummaryFn("find_code", find_code),
-        "get_functions": SummaryFn("get_functions", lambda it_, a, kw: privates[:1] + [target, other_kind] + privates[1:])})
+        "get_functions": SummaryFn("get_functions", lambda it_, a, kw: privates[:1] + ([target] if n_live >= 1 else []) + [other_kind]
+                                   + ([_fn_obj(c, "second-live")] if n_live == 2 else []) + privates[1:])})
     it.import_hook = lambda m, n: codefind if (m, n) == ("codefind", None) else None
     isfn = lambda it_, a, kw: isinstance(a[0], SymObj) and a[0] is not other_kind
     it.module_env(S).vars["inspect"] = SymObj("inspect", Val.ref(z3.IntVal(-10)), attrs={"isfunction": SummaryFn("isfunction", isfn)})
@@ -210,6 +212,9 @@ def u_resolve_reference(c):
     c.prove("lookup/module-and-path", calls == [(hier, {"module": module})])
     if not found:
         c.prove("unknown/CodeNotFoundError", st == "raise" and exc_name(r) == "CodeNotFoundError")
+    elif n_live != 1:
+        # no live function (or several) for the code behind the reference: refused with the reference error, not a bare Exception
+        c.prove("unresolvable-or-ambiguous/CodeNotFoundError", st == "raise" and exc_name(r) == "CodeNotFoundError", note=f"{st} {exc_name(r) if st == 'raise' else r!r}", only=["C18"])
     else:
         c.prove("resolves-to-that-very-function", st == "ok" and r is target, note=f"{st} {r!r}")
 
